@@ -71,11 +71,13 @@ class StaticV:
 
 class KwV:
     """the **kwargs of one call: keyword names known, values abstract; insertion order = order at the call site"""
-    __slots__ = ("items", "persistent")
+    __slots__ = ("items", "persistent", "oid", "rest")
 
-    def __init__(self, items=None):
+    def __init__(self, items=None, rest=None):
         self.items = dict(items or {})
         self.persistent = False
+        self.rest = rest           # an abstract mapping holding further, unknown keywords (the entry point's own **kwargs)
+        self.oid = id(self)        # identity of the dict object it stands for (kept by the per-branch copies)
 
     def __repr__(self):
         return "Kw(%s)" % ", ".join("%s=%r" % kv for kv in self.items.items())
@@ -223,6 +225,8 @@ class Interp:
         self._raw_once = None      # the next call of this function is the call of the undecorated function, made by its wrapper
         self.decorated_ok = set()  # decorated functions whose decorators were applied by evaluating them
         self.persistent_writes = []
+        self.persistent_reads = []
+        self.decorator_funcs = set()
         self.raw_calls = {}        # qname -> [(args, kwargs)] : what the undecorated entry point was finally called with
         self.force_interpret = set()
         self._entry_bind = None
@@ -485,6 +489,10 @@ class Interp:
         if isinstance(v, StaticV):
             return self.h_const(ast.Constant(value=v.value), ctx)
         if isinstance(v, KwV):
+            if v.rest is not None:
+                if not v.items:
+                    return v.rest
+                raise Inconclusive("a **kwargs mapping with known and unknown keywords is used as a whole")
             return self.h_dict([self.h_const(ast.Constant(value=k), ctx) for k in v.items], [self.dom(x, ctx) for x in v.items.values()], None, ctx)
         if isinstance(v, TupleV) and v.kind == ARGS:
             return TupleV([self.dom(x, ctx) for x in v.items])
@@ -505,6 +513,8 @@ class Interp:
     def static_truth(self, v):
         if isinstance(v, StaticV):
             return bool(v.value)
+        if isinstance(v, KwV) and v.rest is not None and not v.items:
+            raise Inconclusive("truth value of a **kwargs mapping whose keywords are not known")
         if isinstance(v, (KwV, TupleV)):
             return bool(v.items)
         return None
@@ -515,8 +525,9 @@ class Interp:
         for k, v in env.items():
             if isinstance(v, KwV):
                 if id(v) not in m:
-                    m[id(v)] = KwV(v.items)
+                    m[id(v)] = KwV(v.items, v.rest)
                     m[id(v)].persistent = v.persistent
+                    m[id(v)].oid = v.oid
                 out[k] = m[id(v)]
             else:
                 out[k] = v
@@ -545,6 +556,8 @@ class Interp:
                 return base.items[c]
             raise Inconclusive("index %d of a %d-tuple of arguments: IndexError in this call form" % (c, len(base.items)), n)
         if isinstance(base, KwV) and isinstance(c, str):
+            if base.persistent:
+                self.persistent_reads.append((base.oid, ctx.qname, getattr(n, "lineno", 0), norm(n)[:100]))
             if c in base.items:
                 return base.items[c]
             raise Inconclusive("kwargs[%r]: KeyError in this call form" % c, n)
@@ -556,6 +569,12 @@ class Interp:
             if i >= len(args):
                 return False, None
             return self.static_of(n.args[i] if i < len(n.args) else None, args[i])
+        if recv.rest is not None:
+            ok, k = skey(0)
+            if not (attr in ("get", "pop", "setdefault") and ok and k in recv.items):
+                raise Inconclusive("kwargs.%s on a mapping whose keywords are not all known" % attr, n)
+        if recv.persistent and attr in ("get", "items", "values", "copy", "pop"):
+            self.persistent_reads.append((recv.oid, ctx.qname, getattr(n, "lineno", 0), norm(n)[:100]))
         if attr in ("get", "pop", "setdefault"):
             ok, k = skey(0)
             if not ok or not isinstance(k, str):
@@ -605,7 +624,7 @@ class Interp:
     def kw_write(self, recv, n, ctx):
         """a dict that lives in a decorator's closure (built once, when the function is decorated) is written by a call"""
         if recv.persistent:
-            self.persistent_writes.append((ctx.qname, getattr(n, "lineno", 0), norm(n)[:100]))
+            self.persistent_writes.append((recv.oid, ctx.qname, getattr(n, "lineno", 0), norm(n)[:100], ctx.mod.relpath if ctx.mod else "?"))
 
     def static_pairs(self, v):
         """{name: value} of a static mapping / sequence of (name, value) pairs"""
@@ -839,6 +858,8 @@ class Interp:
             l, r = vals
             op = n.ops[0]
             okl, cl = self.static_of(n.left, l)
+            if isinstance(op, (ast.In, ast.NotIn)) and okl and isinstance(r, KwV) and r.rest is not None and cl not in r.items:
+                raise Inconclusive("membership test on a **kwargs mapping whose keywords are not all known", n)
             if isinstance(op, (ast.In, ast.NotIn)) and okl and (isinstance(r, KwV) or (isinstance(r, TupleV) and all(isinstance(x, StaticV) for x in r.items))):
                 inside = cl in (r.items if isinstance(r, KwV) else [x.value for x in r.items])
                 return StaticV(inside if isinstance(op, ast.In) else not inside)
@@ -1014,7 +1035,11 @@ class Interp:
             v = self.ev(k.value, env, ctx)
             if k.arg is None:
                 if isinstance(v, KwV):
+                    if v.persistent:
+                        self.persistent_reads.append((v.oid, ctx.qname, getattr(n, "lineno", 0), norm(n)[:100]))
                     kwargs.update(v.items)
+                    if v.rest is not None:
+                        kwargs["**"] = v.rest
                 else:
                     kwargs["**"] = v
             else:
@@ -1099,6 +1124,9 @@ class Interp:
             bound[kwarg] = KwV()
         for k, v in kwargs.items():
             if k == "**":
+                if kwarg:
+                    bound[kwarg].rest = v       # unknown further keywords: they can only end up in the callee's own **kwargs
+                    continue
                 raise Inconclusive("**kwargs call not modelled", n)
             if k in posparams or k in getattr(func_like, "kwonly", ()):
                 if k in bound:
@@ -1108,6 +1136,8 @@ class Interp:
                 bound[kwarg].items[k] = v
             else:
                 raise CallFormError("unexpected keyword argument %s" % k, n)
+        if kwarg and isinstance(bound.get(kwarg), KwV) and bound[kwarg].rest is not None and not bound[kwarg].items and not isinstance(func_like, _FakeFunc):
+            bound[kwarg] = bound[kwarg].rest         # a repository function gets the abstract mapping itself
         for p in list(posparams) + list(getattr(func_like, "kwonly", ())):
             if p not in bound:
                 if p in defaults:
@@ -1187,6 +1217,7 @@ class Interp:
                 fac = self.ev(d.func, {}, mctx)
                 if isinstance(fac, FuncRef):
                     self.force_interpret.add(fac.func.qname)
+                    self.decorator_funcs.add(fac.func.qname)
                 fargs = [StaticV(a.value) if isinstance(a, ast.Constant) else self.ev(a, {}, mctx) for a in d.args]
                 fkw = {k.arg: (StaticV(k.value.value) if isinstance(k.value, ast.Constant) else self.ev(k.value, {}, mctx)) for k in d.keywords}
                 if any(k is None for k in fkw):
@@ -1198,6 +1229,7 @@ class Interp:
                 raise Inconclusive("decorator %s is not a function defined in the repository" % norm(d)[:60], d)
             if isinstance(decf, FuncRef):
                 self.force_interpret.add(decf.func.qname)
+                self.decorator_funcs.add(decf.func.qname)
             dv = self.apply(decf, [dv], {}, d, env, ctx)
             if not isinstance(dv, (Closure, FuncRef)):
                 raise Inconclusive("decorator %s does not return a function the analysis can follow" % norm(d)[:60], d)
@@ -1246,8 +1278,10 @@ class Interp:
         args = [bound[p_] for p_ in params[:k]]
         kws = params[k:][::-1] if CALL_FORM[1] else params[k:]
         kwargs = {p_: bound[p_] for p_ in kws}
-        if func.vararg and func.vararg in bound or func.kwarg and func.kwarg in bound:
-            pass        # *args / **kwargs of the entry point itself: called without extra arguments
+        if func.kwarg and func.kwarg in bound:
+            kwargs["**"] = bound[func.kwarg]         # the entry point's own **kwargs: an unknown mapping, handed on as such
+        if func.vararg and func.vararg in bound:
+            raise Inconclusive("an entry point with *args behind a decorator is not modelled", n or func.node)
         sub = Ctx(func, func.module, func.cls, ctx.stack + (func.qname + "@entry",), parent=ctx)
         sub.self_obj = selfobj
         self._entry_bind = func.qname
